@@ -15,7 +15,7 @@ import numpy as np
 from checks.c15_config import describe, gen_params, realise
 from engines import contracts
 from vlib import gen
-from vlib.core import HELD, VIOLATED, Check, Scratch, result
+from vlib.core import HELD, VIOLATED, Check, Scratch, case_bits, result
 
 WIDTH = 10
 
@@ -148,6 +148,14 @@ class C11(Check):
             except Exception:
                 pass  # list selections are not part of this property
         path = tmp / "cf.hdf"
+        if case_bits(case, "earlier-product-at-path") & 1:
+            # the path already holds an earlier product with every member (and usually another shape):
+            # what is read back is what was written last, nothing of the earlier file (round 7)
+            orng = np.random.default_rng([case["seed"], 1107])
+            keep_shape = bool(orng.integers(2))
+            earlier = gen.gen_corrfunc(orng, nb if keep_shape else nb + 1, npatch if keep_shape else npatch + 2, case["auto"],
+                                       members=["dr", "rr"] if case["auto"] else ["dr", "rd", "rr"], sparsity=0.0)
+            earlier.to_file(path)
         try:
             cf.to_file(path)
             back = CorrFunc.from_file(path)
